@@ -182,6 +182,9 @@ where
 
             let mut aggregator = Aggregator::new();
             loop {
+                #[cfg(p2panda_p2panda_verif)]
+                p2panda_core::verif::point("stream.loop.top").await;
+
                 let event = tokio::select! {
                     // Received incoming operation from remote source.
                     item = sync_stream.next() => {
@@ -229,6 +232,9 @@ where
                     // got dropped, we still continue with this task, as we still might receive
                     // operations from the log sync stream.
                     Some((operation, message, processed_tx)) = publish_rx.recv() => {
+                        #[cfg(p2panda_p2panda_verif)]
+                        p2panda_core::verif::point("stream.published.before_process").await;
+
                         let event = process_published_operation(
                             operation,
                             topic,
@@ -238,6 +244,9 @@ where
                         // Inform publisher optionally about result of processor and that we're
                         // done here.
                         let _ = processed_tx.send(event.clone());
+
+                        #[cfg(p2panda_p2panda_verif)]
+                        p2panda_core::verif::point("stream.published.processed").await;
 
                         // Operations with a body address the system- and application-layer while
                         // operations without a body do _only_ address the system-layer. This
@@ -295,6 +304,9 @@ where
                 //
                 // If channel stopped working because the subscriber got dropped, ignore it as we
                 // still might want to process locally published operations.
+                #[cfg(p2panda_p2panda_verif)]
+                p2panda_core::verif::point("stream.loop.before_send").await;
+
                 let _ = app_tx.send(event).await;
             }
         });
@@ -343,11 +355,17 @@ where
 
     let prune_flag = operation.header.extensions.prune_flag();
 
+    #[cfg(p2panda_p2panda_verif)]
+    p2panda_core::verif::point("process_operation.start").await;
+
     // Send operation to processor task and wait for result. This blocks any parent stream and
     // makes sure that all events are handled in same order.
     let event = pipeline
         .process(Event::new(operation, log_id, topic, prune_flag))
         .await;
+
+    #[cfg(p2panda_p2panda_verif)]
+    p2panda_core::verif::point("process_operation.processed").await;
 
     if event.is_failed() {
         let error = event.failure_reason().expect("event has failed");
@@ -655,6 +673,9 @@ where
             .create_operation(self.topic(), extensions.log_id(), body_bytes, extensions)
             .await?;
         let hash = operation.hash;
+
+        #[cfg(p2panda_p2panda_verif)]
+        p2panda_core::verif::point("publish.after_forge").await;
 
         // Start processing operation in pipeline. Keep a oneshot receiver around to allow users to
         // optionally await & get informed when processing has finished.
